@@ -1091,6 +1091,8 @@ func redisConfig(port int, strategy int32, connectTimeout time.Duration) *servic
 	}
 }
 
+var simProxyIdle time.Duration // when set: the idle timeout of the next service started
+
 func startRedisProxy(seeds []string, strategy int32) *simProxy {
 	// no periodic refresh: the routing table only follows triggers (start, redirections, unreachable nodes)
 	simTimersOnce.Do(func() { redis.VerifSetSlotsRefresh(time.Hour, 15*time.Millisecond) })
@@ -1099,6 +1101,9 @@ func startRedisProxy(seeds []string, strategy int32) *simProxy {
 	port := freePort()
 	cfg := redisConfig(port, strategy, 300*time.Millisecond)
 	cfg.Listener.ConnectionLimit = simProxyLimit
+	if simProxyIdle > 0 {
+		cfg.IdleTimeout = utils.DurationPtr(simProxyIdle)
+	}
 	if err := cfg.Validate(); err != nil {
 		die("sim config: %v", err)
 	}
